@@ -85,8 +85,9 @@ def gen_prog(rng, i):
 
 
 def run_prog(prog):
-    r = driver.run_inproc({"test_a.py": prog["source"]}, prog["flags"])
+    r = driver.run_inproc({"test_a.py": prog["source"]}, prog["flags"], edits=True)
     out = {"session_exc": r["session_exc"], "tb": r.get("session_tb"), "module_exc": r["module_exc"], "replacements": r["replacements"].get("test_a.py"), "obsolete": r.get("obsolete"),
+           "edits": r.get("edits"),
            "raw": r["raw_new_code"].get("test_a.py"), "read_text": r["read_text"].get("test_a.py")}
     after = r["files"]["test_a.py"]
     try:
@@ -189,6 +190,9 @@ def run(ctx: Ctx):
     for j in obad[:5]:
         ctx.report("Model/Obsolete.v and without_obsolete_changes differ on the approved changes of a program", {"kind": "prog", "source": oprogs[j]["source"], "flags": oprogs[j]["flags"]},
                    no_input=True, kind="correspondence")
+    # where apply_all writes: the replacement ranges of the surviving changes vs Model/Edits.v (with the premises of C18_edits_never_overlap evaluated on each case)
+    from .. import editscorr
+    editscorr.check_part(ctx, "C18", progs, outs)
     ctx.sample({"program_tail": progs[0]["source"][-500:], "flags": progs[0]["flags"], "replacements": outs[0]["replacements"]})
     # real sessions
     m = 64 if not ctx.thorough else 800
